@@ -388,6 +388,25 @@ func init() {
 				res = append(res, J{"dir": dir, "kind": kind, "visible": vis, "note": note})
 			}
 		}
+		for _, dir := range pokeKeyDirs {
+			for _, kind := range pokeKeyKinds {
+				var vis bool
+				var note string
+				func() {
+					defer func() {
+						if r := recover(); r != nil {
+							note = fmt.Sprint("panic: ", r)
+						}
+					}()
+					if sdk == "v1" {
+						vis, note = pokeKeyV1(dir, kind)
+					} else {
+						vis, note = pokeKeyV2(dir, kind)
+					}
+				}()
+				res = append(res, J{"dir": dir, "kind": kind, "visible": vis, "note": note})
+			}
+		}
 		return J{"r": "ok", "matrix": res}
 	}
 }
